@@ -243,7 +243,9 @@ Fixpoint trim_left_rev (s : bytes) : bytes :=
       end
   end.
 
-Definition trim_right (s : bytes) : bytes := rev (trim_left_rev (rev s)).
+(* linear-time reversal (List.rev is quadratic) *)
+Definition frev (s : bytes) : bytes := rev_append s [].
+Definition trim_right (s : bytes) : bytes := frev (trim_left_rev (frev s)).
 Definition trim_space (s : bytes) : bytes := trim_right (trim_left s).
 
 (** skipSpace: only ' ' and '\t'. *)
